@@ -86,6 +86,13 @@ func sendRequestToTarget(req *http.Request, httpsDefault bool) (*http.Response, 
 	// Remove hop-by-hop headers in the request that should not be forwarded to the target server.
 	removeHopByHopHeaders(req.Header)
 
+	// When a request names no Accept-Encoding, net/http's transport asks for gzip on its own and decodes the
+	// answer behind our back: the client would get a body, a Content-Length and a missing Content-Encoding
+	// that the origin never sent. We did not ask for a coding; whatever the origin sends is relayed as it is.
+	if req.Header.Get("Accept-Encoding") == "" {
+		req.Header.Set("Accept-Encoding", "identity")
+	}
+
 	slog.Debug("Sending request", "url", req.URL, "method", req.Method)
 	resp, err := upstreamClient.Do(req)
 	if err != nil {
